@@ -3,6 +3,8 @@
 BINARIES = {
     # plain: everything that needs neither the race detector nor the vfs tag
     "props": {"pkg": "./props", "tags": "verif", "extra": [{"pkg": "./cmd/lsdriver", "out": "lsdriver"}]},
+    # C18 needs the vfs build tag, cgo and the mattn driver linked in (sqlite3vfs symbols)
+    "propsvfs": {"pkg": "./propsvfs", "tags": "verif,vfs", "env": {"CGO_ENABLED": "1"}},
 }
 
 MANIFEST_META = {
@@ -325,6 +327,22 @@ PROPS = {
         "assumptions": ["file replica client (CreatedAt = file mtime)", "segments end at commit boundaries, as 0.3.x produced them"],
         "runs": [
             {"name": "layouts", "test": "TestProp_C19", "kind": "rapid", "checks_quick": 2400, "checks_thorough": 60000, "shards": 8},
+        ],
+    },
+    "C18": {
+        "manifest": {
+            "text": "primary histories with growth, partial shrink (auto_vacuum FULL, incremental_vacuum), VACUUM, compaction and level-0 retention against a file replica; a VFSFile opened at a drawn point and polled at drawn points through a hook (the background ticker never fires); after open, after every poll, after time-travel and reset: FileSize and every page served by ReadAt equal an ordinary restore at the VFS position (or at the requested time), header bytes masked",
+            "note": "hydration, VFS write mode and VFS-side compaction are not exercised; one known finding (poll after a partial shrink) excluded by shape",
+            "technique": "stateful property-based testing (rapid) with a differential oracle against ordinary restore",
+        },
+        "binary": "propsvfs",
+        "level": "exploration",
+        "rule": ("histories of 8-30 steps over {application ops incl. delete+incremental_vacuum, SyncAndWait, Compact(l), Snapshot, vfs-open, vfs-poll, vfs-time(T), vfs-reset}; "
+                 "page sizes 512..8192, auto_vacuum none/full/incremental, L0Retention 0 or 1ns. Non-trivial = a poll or plan consumed a file whose commit is smaller than the "
+                 "previous commit, or a poll ran after the level-0 files it would have read were compacted away; distinct = hash of the case."),
+        "assumptions": ["file replica client", "build tags verif,vfs with cgo"],
+        "runs": [
+            {"name": "histories", "test": "TestProp_C18", "kind": "rapid", "checks_quick": 400, "checks_thorough": 12000, "shards": 6},
         ],
     },
 }
